@@ -279,7 +279,8 @@ func (r *run) images(sdir string, maxPoints, maxPointsDefault, workers int, out 
 			defer wg.Done()
 			for j := range jobs {
 				recoverImage(r.tr, j.dir, j.io, j.acks, j.cAt, j.idx, j.rec)
-				if os.Getenv("VERIF_KEEPBAD") != "" && (!j.rec.OpenOk || !j.rec.ContentOk || !j.rec.ChainOk) {
+				if os.Getenv("VERIF_KEEPBAD") != "" && (!j.rec.OpenOk || !j.rec.ContentOk || !j.rec.ChainOk || !j.rec.IndexOk || !j.rec.ProofOk || !j.rec.CommitOk || !j.rec.ExtraValuesOk) {
+				fmt.Fprintf(os.Stderr, "kept image %s: %s k=%d %s\n", j.dir, j.rec.Mode, j.rec.K, j.rec.Detail)
 					continue
 				}
 				os.RemoveAll(filepath.Dir(j.dir))
